@@ -69,6 +69,129 @@ pub struct NewKey(pub String);
 #[derive(Serialize, Deserialize, PartialEq, Debug, Clone)]
 pub struct UnitStruct;
 
+// ---------------------------------------------------------------------------------------------
+// representations that drive the self-describing paths (deserialize_any, buffered content)
+
+#[derive(Serialize, Deserialize, PartialEq, Debug, Clone)]
+#[serde(tag = "t")]
+pub enum Internal {
+    A { x: i8, s: String },
+    B { v: Vec<u8> },
+    C,
+}
+
+#[derive(Serialize, Deserialize, PartialEq, Debug, Clone)]
+#[serde(tag = "t", content = "c")]
+pub enum Adjacent {
+    A(i8),
+    B { x: String },
+    C,
+    D(u64, Option<bool>),
+}
+
+#[derive(Serialize, Deserialize, PartialEq, Debug, Clone)]
+#[serde(untagged)]
+pub enum Untagged {
+    N(i64),
+    U(u64),
+    S(String),
+    L(Vec<bool>),
+    M { a: u8 },
+    Nothing,
+}
+
+#[derive(Serialize, Deserialize, PartialEq, Debug, Clone)]
+pub struct Flat {
+    pub a: u8,
+    #[serde(flatten)]
+    pub rest: BTreeMap<String, i16>,
+}
+
+#[derive(Serialize, Deserialize, PartialEq, Debug, Clone)]
+pub struct Renamed {
+    #[serde(rename = "\u{e9} key")]
+    pub a: Option<u8>,
+    #[serde(default, skip_serializing_if = "Option::is_none")]
+    pub b: Option<String>,
+    #[serde(default)]
+    pub c: Vec<()>,
+}
+
+/// A byte string: serialized with `serialize_bytes`, read back with `deserialize_byte_buf`.
+#[derive(PartialEq, Debug, Clone)]
+pub struct Bytes(pub Vec<u8>);
+
+impl Serialize for Bytes {
+    fn serialize<S: serde::Serializer>(&self, s: S) -> Result<S::Ok, S::Error> {
+        s.serialize_bytes(&self.0)
+    }
+}
+
+impl<'de> Deserialize<'de> for Bytes {
+    fn deserialize<D: serde::Deserializer<'de>>(d: D) -> Result<Self, D::Error> {
+        struct V;
+        impl<'de> serde::de::Visitor<'de> for V {
+            type Value = Bytes;
+            fn expecting(&self, f: &mut std::fmt::Formatter) -> std::fmt::Result {
+                f.write_str("bytes")
+            }
+            fn visit_bytes<E>(self, v: &[u8]) -> Result<Bytes, E> {
+                Ok(Bytes(v.to_vec()))
+            }
+            fn visit_byte_buf<E>(self, v: Vec<u8>) -> Result<Bytes, E> {
+                Ok(Bytes(v))
+            }
+            fn visit_seq<A: serde::de::SeqAccess<'de>>(self, mut a: A) -> Result<Bytes, A::Error> {
+                let mut out = Vec::new();
+                while let Some(b) = a.next_element::<u8>()? {
+                    out.push(b);
+                }
+                Ok(Bytes(out))
+            }
+        }
+        d.deserialize_byte_buf(V)
+    }
+}
+
+fn representations(t: &mut Tally) {
+    for x in [-128i8, -1, 0, 127] {
+        for s in ["", "a", "t", "\u{1f600}"] {
+            check_datum(&Internal::A { x, s: s.to_string() }, "internally tagged enum", false, t);
+            check_datum(&vec![Some(Internal::A { x, s: s.to_string() }), None], "Vec<Option<internally tagged>>", false, t);
+            check_datum(&Adjacent::B { x: s.to_string() }, "adjacently tagged enum", false, t);
+        }
+        check_datum(&Adjacent::A(x), "adjacently tagged enum", false, t);
+        check_datum(&Untagged::N(x as i64), "untagged enum", false, t);
+    }
+    for v in [vec![], vec![0u8], vec![255, 0, 128]] {
+        check_datum(&Internal::B { v: v.clone() }, "internally tagged enum", false, t);
+        check_datum(&Bytes(v.clone()), "bytes", false, t);
+        check_datum(&St { f: Bytes(v.clone()), g: 3 }, "bytes in a struct", false, t);
+        check_datum(&BTreeMap::from([("k".to_string(), Bytes(v))]), "bytes in a map", false, t);
+    }
+    check_datum(&Internal::C, "internally tagged enum", false, t);
+    check_datum(&Adjacent::C, "adjacently tagged enum", false, t);
+    for (u, o) in [(0u64, None), (u64::MAX, Some(true)), (1 << 63, Some(false))] {
+        check_datum(&Adjacent::D(u, o), "adjacently tagged enum", false, t);
+        check_datum(&Untagged::U(u), "untagged enum", false, t);
+    }
+    for u in [Untagged::N(i64::MIN), Untagged::N(-1), Untagged::S("".into()), Untagged::S("x".into()), Untagged::L(vec![]), Untagged::L(vec![true, false]), Untagged::M { a: 0 }, Untagged::M { a: 255 }, Untagged::Nothing] {
+        check_datum(&u, "untagged enum", false, t);
+        check_datum(&BTreeMap::from([("u".to_string(), vec![u.clone()])]), "untagged enum in a map of vectors", false, t);
+    }
+    for a in [0u8, 255] {
+        for rest in [BTreeMap::new(), BTreeMap::from([("b".to_string(), -1i16)]), BTreeMap::from([("".to_string(), i16::MIN), ("z".to_string(), i16::MAX), ("\u{e9}".to_string(), 0)])] {
+            check_datum(&Flat { a, rest: rest.clone() }, "struct with a flattened map", false, t);
+        }
+        for b in [None, Some(String::new()), Some("s".to_string())] {
+            for c in [vec![], vec![(), ()]] {
+                check_datum(&Renamed { a: Some(a), b: b.clone(), c: c.clone() }, "struct with renamed / defaulted / skipped fields", false, t);
+                check_datum(&Renamed { a: None, b: b.clone(), c }, "struct with renamed / defaulted / skipped fields", false, t);
+            }
+        }
+    }
+}
+
 /// Compares a json-syntax value with serde_json's rendering of the same datum: same shape,
 /// objects up to member order, numbers by value (`f32_data`: after rounding both to f32).
 pub fn same_shape(a: &Value, b: &serde_json::Value, f32_data: bool) -> bool {
@@ -358,6 +481,7 @@ pub fn run(rep: &mut Report, tier: Tier) {
         key_context(&NewKey(s.to_string()), "BTreeMap<newtype(String),_>", &mut t);
     }
     check_datum(&BTreeMap::from([("a".to_string(), 1u8), (TOKEN.to_string(), 2u8)]), "BTreeMap<String,_> with the token as a later key", false, &mut t);
+    representations(&mut t);
     rep.absorb(t);
 
     // chars: every scalar value as value and as key
